@@ -89,6 +89,13 @@ PROPS["C16"] = P(["provider"],
     "Trusted: " + TB_COMMON + " env/cln_pay.rs (pay status semantics; a pay RPC that has returned creates no further parts); wait_payment enters under its interface contract (C15).",
     assumptions=A_WORLD + ["a pay command that has returned (result or RPC error) creates no further parts"])
 
+PROPS["C17"] = P(["codec"],
+    "Proof of the codec half (Verus): MultiLineCodec::decode and find_separator verbatim: without a blank-line separator decode returns Ok(None) and leaves the buffer untouched; otherwise it consumes exactly the bytes up to and including the FIRST separator and returns the UTF-8 text before it (Err iff not UTF-8), no index/overflow panic. Lemmas: appending bytes never moves the first separator (chunking independence), and a split inside the separator is found once both bytes are present. Everything else in C17 is not applicable.",
+    "Trusted: " + TB_COMMON + " env/codec_env.rs: BytesMut (split_to, range index, len), and the std semantics of iter().zip(iter().skip(1)).position(pred) (first index whose pair satisfies the predicate) as an env iterator model; the predicate closure itself is checked (E8). utf8() is under an assumed contract; encode() is not under contract (vstd has no usable spec for str::len / as_bytes). "
+    "NOT APPLICABLE clauses: FramedRead's read loop (tokio-util), one reply per request id under out-of-order completion, non-interleaved concurrent writes (tokio::spawn'ed boxed callbacks, json!, FramedWrite behind a mutex), JSON well-formedness (serde_json).",
+    assumptions=["tokio-util FramedRead appends the bytes read and calls decode until it returns None", "std slice iteration semantics (env model)"],
+    not_covered=["MultiLineCodec::encode", "the plugin driver loop (src/cln_plugin/mod.rs)", "logging writer"])
+
 PROPS["C19"] = P(["config", "provider"],
     "Proof (Verus) on the E6 slice of main() that converts and validates the options (src/main.rs, from the first cp.option(..) to the mpp_timeout conversion): it refuses to start iff a value is out of its target range or policy delta <= safety delta; otherwise safety delta, advertised/enforced policy, MPP timeout, self-route-hint flag, payment timeout and xpay equal the configured values (options are distinct opaque tokens, so a swapped option is a failed obligation). PayPaymentProvider::new caps the retry time at 65535 s.",
     "Trusted: " + TB_COMMON + " env/config_env.rs (ConfiguredPlugin::option returns the value CLN delivered: uninterpreted cfg_*; E11: option descriptors become opaque distinct tokens, name/default/description dropped). The statements of main() that thread the converted values into HtlcManagerParams / PayPaymentProvider::new (struct literal with field-init shorthand) are not under contract.",
@@ -108,7 +115,6 @@ PROPS["C18"] = P(["tlv_dec"],
 
 NOT_APPLICABLE = {
     "C15": "planned as unit waitpay (DESIGN.md section 7, C15) but not built in the time available: wait_payment needs the join! expansion, an env model of FuturesUnordered and per-part ghost sets; no other technique is used instead. wait_payment enters pay/payment_lifecycle under its assumed interface contract.",
-    "C17": "the codec half (MultiLineCodec::decode/encode, find_separator) was planned as unit codec but not built in the time available; 'one reply per request id' and 'concurrent writes never interleave' live in tokio::spawn'ed boxed callbacks, json! and FramedWrite behind a mutex -- concurrency in third-party machinery, no contract within reach (DESIGN.md section 10).",
 }
 HOOK_COMMITS = ["a595cb4", "8d4e42a", "747697f", "d2148d0"]
 NOTES = "Contract-based deductive verification of the real code; see DESIGN.md. exit 2 = undecided (never a VIOLATION)."
